@@ -297,6 +297,20 @@ func (p cfgPath) SetValue(cfg *Config, opt *options, val value) Error {
 		}
 		v := cfgSub{next}
 		if err := field.SetValue(opt, v, val); err != nil {
+			if err.Reason() == ErrIndexOutOfRange {
+				// the list to be indexed does not exist yet (next is not part
+				// of the configuration): name the place it was to be created at
+				ctx := node.Context()
+				var names []string
+				if parent := ctx.path("."); parent != "" {
+					names = append(names, parent)
+				}
+				for _, f := range fields[:len(fields)-1] {
+					names = append(names, f.String())
+				}
+				message := fmt.Sprintf("index '%v' out of range (length=0)", field)
+				return raisePathErr(ErrIndexOutOfRange, node.meta(), message, strings.Join(names, "."))
+			}
 			return err
 		}
 		val = v
